@@ -115,6 +115,7 @@ type Opts struct {
 	DefaultService    string `json:"default_service,omitempty"`
 	BackendShards     int    `json:"backend_shards,omitempty"`
 	GatewayV1         bool   `json:"gateway_v1,omitempty"`
+	TCPConfigMap      string `json:"tcp_configmap,omitempty"` // --tcp-services-configmap "ns/name"
 }
 
 // Run describes how one fresh pipeline is fed.
@@ -201,7 +202,7 @@ type Result struct {
 func Exec(r Run, u sem.Universe, keep bool) (*Result, error) {
 	popt := pipeline.Options{Dir: r.Dir, WatchWithoutClass: r.Opts.WatchWithoutClass,
 		DefaultService: r.Opts.DefaultService, BackendShards: r.Opts.BackendShards, NoAutoMeta: true,
-		HasGatewayV1: r.Opts.GatewayV1}
+		HasGatewayV1: r.Opts.GatewayV1, TCPConfigMapName: r.Opts.TCPConfigMap}
 	var st *store
 	var sc *ShuffleClient
 	if r.ShuffleLists {
